@@ -52,6 +52,8 @@ PROGRAMS = [
     # block headers whose last child is not their last field in source order / contains the character that ends a header
     "class K(m=M, *bs[1:]):\n    x = 1\nclass L(m={a: b}, *c[d:e]): pass",
     "def f(a=lambda: 0, *b: t[1:], **c: {1: 2}) -> r[3:]:\n    return a\nwith x[1:] as y, z: pass",
+    # a comment holding the header's closing character between the last header child and the end of the header
+    "if (a  # note: here\n    ):\n    b\nwhile (c  # x: y\n       ) :  # z:\n    d",
 ]
 TEXTS = ['', ' ', 'x', '\n', ':', '#', '(', ')', 'pass', '\n    ', '=', 'if ', ';', ',', 'é', '\\\n', '"']
 TEXTS_BLANK = ['   ', '\t']  # only for the program whose blanks are content (program 20)
